@@ -346,6 +346,13 @@ def t_c04() -> Iterator[Dict[str, Any]]:
     # star import honouring __all__ (hidden names must not be bound)
     yield project([mod("p", pkg=True), mod("a", 1, ops=flat(cls("A"), cls("B2"), fn("f")), all=["A"]),
                    mod("c", 1, ops=flat(star("a", lvl=1), cls("Sub", "A")))], "C04", star_all=True)
+    # __all__ listing underscore names: a star import binds every listed name, private-looking or not
+    yield project([mod("p", pkg=True),
+                   mod("core", 1, ops=flat(cls("_Backend", body=[fn("open")]), fn("_helper"), cls("Public"), cls("_Unlisted")), all=["_Backend", "_helper", "Public"]),
+                   mod("compat", 1, ops=flat(cls("_Backend", body=[fn("open")]))),
+                   mod("use1", 1, ops=flat(star("core", lvl=1), cls("S1", "_Backend"), alias("h", "_helper"))),
+                   mod("use2", 1, ops=flat(frm("compat", "_Backend", lvl=1), star("core", lvl=1), cls("S2", "_Backend"), alias("o", "_Backend.open")))],
+                  "C04", star_all_private=True)
     # chains of re-imports (pydoctor may leave them unresolved, never resolve them wrongly)
     yield project([mod("p", pkg=True, ops=[frm("a", "A", lvl=1)]), mod("a", 1, ops=flat(cls("A"))),
                    mod("c", 1, ops=flat(frm("p", "A"), cls("Sub", "A"))),
@@ -669,3 +676,20 @@ def random_project2(rng: random.Random) -> Dict[str, Any]:
     if cyclic or P.has_import_cycle(p):       # e.g. a package __init__ importing from a sub-module that imports a user of the package
         p["meta"]["cyclic"] = True
     return p
+
+
+def t_c04_generations() -> Iterator[Dict[str, Any]]:
+    """Several generations of one class name in a module, a subclass derived from an EARLIER generation, names reached through that
+       subclass (Python: the members of the generation the subclass was derived from)."""
+    for n in (2, 3, 4):
+        ops: List[Any] = []
+        for g in range(n):
+            ops += cls("Codec", body=[fn("render"), fn(f"only{g}")])
+            if g == 0:
+                ops += cls("Legacy", "Codec", body=[fn("own")])
+            if g == 1:
+                ops += cls("Second", "Codec")
+        ops += [alias("r1", "Legacy.render"), alias("o0", "Legacy.only0"), alias("r2", "Second.render"), alias("cur", "Codec.render")]
+        yield project([mod("p", pkg=True), mod("m", 1, ops=flat(ops)),
+                       mod("u", 1, ops=flat(frm("m", "Legacy", lvl=1), frm("m", "Codec", lvl=1), alias("x", "Legacy.render"), cls("Sub", "Legacy"), cls("Cur", "Codec")))],
+                      "C04", members="generations", count=n)
